@@ -95,6 +95,16 @@ func allScenarios() []*scenario {
 			Why: "three auto-compacting Adds ‖ {CompactAll; Add}: four processes, at most 2 preemptions"},
 		{Name: "S21", Init: "four", Procs: []procSpec{PNoAuto(rng(0, 1)), PNoAuto(rng(2, 3)), PNoAuto(rng(1, 2)), P(add("a"))}, Preempt: 2,
 			Why: "three range compactions (two disjoint, one overlapping both) ‖ auto-compacting Add: four processes, at most 2 preemptions"},
+		{Name: "S8-3", Init: "one", Procs: []procSpec{PNoAuto(addition("a", "b", "c")), P(add("d"))}, Preempt: -1,
+			Why: "three-table Addition ‖ auto-compacting Add"},
+		{Name: "S2-high", Init: "high2", Procs: []procSpec{P(add("a")), PNoAuto(compactAll())}, Preempt: -1,
+			Why: "Add ‖ CompactAll on a stack whose update indices start at 2^32"},
+		{Name: "S1-skipname", Init: "one", Cfg: reftable.Config{SkipNameCheck: true}, Procs: []procSpec{P(add("a")), P(add("b"))}, Preempt: -1,
+			Why: "Add ‖ Add with name checking disabled (the check-addition path is skipped)"},
+		{Name: "F4-fault-addition", Init: "cancel", Procs: []procSpec{PNoAuto(addition("a", "b")), PNoAuto(rng(0, 1))}, Preempt: -1, Faults: 1,
+			Why: "two-table Addition ‖ compaction of a cancelling range, with one injected I/O fault"},
+		{Name: "F5-fault-reader", Init: "two", Procs: []procSpec{PNoAuto(add("a"), rng(1, 2)), Reader(st("read"), st("reload"), st("read"))}, Preempt: 2, Faults: 1,
+			Why: "reader reloading ‖ add + partial compaction with one injected I/O fault (C05/C16 only)"},
 		{Name: "S16", Init: "three", Procs: []procSpec{PNoAuto(rng(1, 2)), PNoAuto(add("a"))}, Preempt: -1,
 			Why: "partial-range compaction over a tombstone ‖ Add"},
 	}
@@ -106,18 +116,18 @@ func allScenarios() []*scenario {
 		}
 		c := *s
 		c.Name = s.Name + "@s256"
-		c.Cfg = sha256Cfg
+		c.Cfg.HashID = reftable.SHA256ID
 		out = append(out, &c)
 	}
 	return out
 }
 
 var quickSets = map[string][]string{
-	"C04": {"S1-empty", "S1-one", "S2", "S5", "S8", "S14", "S9", "S1-one@s256", "S10", "S18-reject", "S19-span", "S3", "S12", "S16", "S2@s256", "S20", "S21", "S15-crash", "S7-close", "S7-clean", "S7-close-partial", "S17-gc-empty", "S6p", "S16c"},
-	"C05": {"S1-one", "S2", "S3", "S4", "S4b", "S16c", "S20", "S21", "S18-reject", "S19-span", "S6p", "S6q-b2", "S7-close-partial", "F1-fault-compact-add", "F2-fault-add-add", "S5", "S7-close", "S7-clean", "S13", "S15-crash", "S16"},
-	"C08": {"S1-one", "S2", "S4b", "S5", "S5b", "S8", "S7-clean", "S20", "S21", "F1-fault-compact-add", "F2-fault-add-add", "F3-fault-range-range"},
-	"C10": {"S6", "S6p", "S6o", "S6q-b2", "S1-one", "S12", "S6-3", "S6p@s256", "S6r", "S16c"},
-	"C16": {"S1-empty", "S1-one", "S2", "S4", "S4b", "S16c", "S20", "S21", "S18-reject", "S7-close-partial", "F1-fault-compact-add", "F2-fault-add-add", "S5", "S7-close", "S7-clean", "S7-clean-compact", "S8", "S10", "S17-gc-empty"},
+	"C04": {"S1-empty", "S1-one", "S2", "S5", "S8", "S14", "S9", "S1-one@s256", "S10", "S18-reject", "S19-span", "S3", "S12", "S16", "S2@s256", "S20", "S21", "S15-crash", "S7-close", "S7-clean", "S7-close-partial", "S17-gc-empty", "S6p", "S16c", "S8-3", "S2-high", "S1-skipname", "S1-empty@s256", "S16c@s256"},
+	"C05": {"S1-one", "S2", "S3", "S4", "S4b", "S16c", "S20", "S21", "S8-3", "S2-high", "F4-fault-addition", "F5-fault-reader", "S5@s256", "S18-reject", "S19-span", "S6p", "S6q-b2", "S7-close-partial", "F1-fault-compact-add", "F2-fault-add-add", "S5", "S7-close", "S7-clean", "S13", "S15-crash", "S16"},
+	"C08": {"S1-one", "S2", "S4b", "S5", "S5b", "S8", "S7-clean", "S20", "S21", "S8-3", "F4-fault-addition", "S4b@s256", "F1-fault-compact-add", "F2-fault-add-add", "F3-fault-range-range"},
+	"C10": {"S6", "S6p", "S6o", "S6q-b2", "S1-one", "S12", "S6-3", "S6p@s256", "S6r", "S16c", "S16c@s256", "S2-high"},
+	"C16": {"S1-empty", "S1-one", "S2", "S4", "S4b", "S16c", "S20", "S21", "S8-3", "S2-high", "S1-skipname", "F4-fault-addition", "F5-fault-reader", "S2@s256", "S18-reject", "S7-close-partial", "F1-fault-compact-add", "F2-fault-add-add", "S5", "S7-close", "S7-clean", "S7-clean-compact", "S8", "S10", "S17-gc-empty"},
 }
 
 func catalogue(prop, tier string) []*scenario {
